@@ -2,7 +2,7 @@
 import numpy as np
 
 from . import env, indep
-from .report import PropertyViolation
+from .report import Discard, PropertyViolation
 
 from gaddlemaps.components import AtomGro, Molecule, MoleculeTop, Residue  # noqa: E402
 
@@ -68,7 +68,7 @@ def lib(clause, fn, *args, **kwargs):
     try:
         with env.quiet():
             return fn(*args, **kwargs)
-    except PropertyViolation:
+    except (PropertyViolation, Discard):
         raise
     except BaseException as exc:   # noqa: BLE001 - recursion errors etc. included
         if isinstance(exc, (KeyboardInterrupt, SystemExit, MemoryError)):
@@ -87,3 +87,31 @@ def lib(clause, fn, *args, **kwargs):
 
 def positions(mol):
     return np.array(mol.atoms_positions, dtype=float)
+
+
+# ---------------------------------------------------------------- step cap for Monte-Carlo searches
+import contextlib  # noqa: E402
+
+
+@contextlib.contextmanager
+def step_cap(limit=None):
+    """Bounds the number of Monte-Carlo steps of the searches started inside the block.  The library's loop
+    stops `budget` steps after its last new minimum; on an objective that the enabled moves leave (almost)
+    invariant, rounding noise keeps producing 'new minima' and the loop effectively never ends.  Termination
+    is not among the listed properties, so such a case is discarded (reason 'step-cap'), not reported."""
+    import os
+    from gaddlemaps import _backend
+    limit = limit or int(os.environ.get("VERIF_STEP_CAP", "200000"))
+    orig = _backend.accept_metropolis
+    n = [0]
+
+    def counted(*a, **k):
+        n[0] += 1
+        if n[0] > limit:
+            raise Discard("step-cap")
+        return orig(*a, **k)
+    _backend.accept_metropolis = counted
+    try:
+        yield n
+    finally:
+        _backend.accept_metropolis = orig
